@@ -1002,6 +1002,13 @@ impl Opcode for SLoad {
         let storage = vm.state()?.storage_mut();
         let result = storage.load(&key);
 
+        // The storage itself has no access to the value size limit, so it is enforced here
+        let result = vm.build().symbolic(
+            result.instruction_pointer(),
+            result.data().clone(),
+            result.provenance(),
+        );
+
         // Write it into the stack
         vm.stack_handle()?.push(result)?;
 
